@@ -375,6 +375,14 @@ lb = { max_denominator = 3 }
 kg = { enabled = true, max_denominator = 4 }
 cup = { accuracy = 0.5 }
 ml = { enabled = false }
+[[quantity]]
+quantity = "volume"
+[quantity.units]
+unspecified = [ { names = ["ladle"], symbols = ["ldl"], ratio = 0.1 } ]
+[[quantity]]
+quantity = "mass"
+[quantity.units]
+unspecified = [ { names = ["knob"], symbols = ["knb"], ratio = 15 } ]
 "#;
 
 type FracTable = Vec<(String, (bool, f32, u8, u32))>;
@@ -470,6 +478,12 @@ fn check_caller(c: &CallerCase, st: &mut Stats) -> Verdict {
         Value::Text(_) => vec![],
     };
     for (which, n) in nums {
+        // non-positive amounts are never approximated: a fraction cannot stand for them
+        let input = if which == "range end" { e.unwrap_or(s) } else { s };
+        if input <= 0.0 {
+            let sign_kept = n.value() <= 0.0 || ru.physical_quantity == cooklang::convert::PhysicalQuantity::Temperature;
+            vensure!(!matches!(n, Number::Fraction { .. }) && sign_kept, "c12.nonpositive-accepted", "{which} of {before:?}.{what} is {n:?}: a non-positive amount was approximated or lost its sign; result {q:?}");
+        }
         if let Number::Fraction { whole, num, den, err } = *n {
             st.nontrivial(&(c.unit as usize % units.len(), c.start_bits, c.end_bits, c.op % 5, c.target as usize % units.len()));
             st.class("fraction in the result");
@@ -495,10 +509,12 @@ fn caller_strategy() -> impl Strategy<Value = CallerCase> {
         2 => (0.01f64..50.0),
         1 => (0.0f64..5000.0),
     ];
-    (any::<u16>(), any::<u8>(), val.clone(), proptest::option::weighted(0.5, val), 0u8..5, any::<u16>()).prop_map(|(unit, key, s, e, op, target)| CallerCase {
+    let start = prop_oneof![9 => val.clone(), 1 => val.clone().prop_map(|v| -v)];
+    (any::<u16>(), any::<u8>(), start, proptest::option::weighted(0.5, val), 0u8..5, any::<u16>()).prop_map(|(unit, key, s, e, op, target)| CallerCase {
         unit,
         key,
         start_bits: s.to_bits(),
+        // a range that starts below zero may end above it
         end_bits: e.map(|e| (s + e).to_bits()),
         op,
         target,
